@@ -1,9 +1,12 @@
 /-
   "Nothing is released beyond the stream's credit": whenever processing a frame releases something
   on a stream, that stream's window is non-negative afterwards (so, with the bookkeeping invariant,
-  what was sent on it is within initial window + increments).  Holds for every frame except a
-  SETTINGS frame that carries SETTINGS_INITIAL_WINDOW_SIZE more than once (the later value may take
-  back what the earlier one released — legal, RFC 7540 §6.9.2).  Core-only.
+  what was sent on it is within initial window + increments).  Holds for every frame: a SETTINGS
+  frame is applied through its values in force (`inForce`: SETTINGS_INITIAL_WINDOW_SIZE at most
+  once, its last occurrence), so the queues are scanned at most once per frame, under the value
+  that is in force afterwards.  (`Released.applyEach` is the per-value loop: it needs a list that
+  names the identifier at most once — a later value may take back what an earlier one released.)
+  Core-only.
 -/
 import FwdVerif.Lemmas.H2Machine
 
@@ -180,9 +183,9 @@ def initCount : List (Nat × Nat) → Nat
   | [] => 0
   | (id, _) :: t => (if id = settingInitialWindowSize then 1 else 0) + initCount t
 
-theorem applySettings_noInit (o : Dir α) (ord : Nat → List Nat) (k : Nat) (kvs : List (Nat × Nat))
+theorem applyEach_noInit (o : Dir α) (ord : Nat → List Nat) (k : Nat) (kvs : List (Nat × Nat))
     (h : initCount kvs = 0) :
-    (applySettings o ord k kvs).2 = [] ∧ (applySettings o ord k kvs).1.streams = o.streams := by
+    (applyEach o ord k kvs).2 = [] ∧ (applyEach o ord k kvs).1.streams = o.streams := by
   induction kvs generalizing o k with
   | nil => exact ⟨rfl, rfl⟩
   | cons kv rest ih =>
@@ -191,26 +194,26 @@ theorem applySettings_noInit (o : Dir α) (ord : Nat → List Nat) (k : Nat) (kv
     have hid : ¬ id = settingInitialWindowSize := by
       intro hx; simp [hx] at h
     have hrest : initCount rest = 0 := by simp [hid] at h; exact h
-    simp only [H2.applySettings, hid, if_false]
+    simp only [H2.applyEach, hid, if_false]
     split
     · exact ih _ k hrest
     · split
       · exact ih _ k hrest
       · exact ih _ k hrest
 
-theorem Released.applySettings {o : Dir α} {L : Ledger} (h : Book o L) (ord : Nat → List Nat) (k : Nat)
+theorem Released.applyEach {o : Dir α} {L : Ledger} (h : Book o L) (ord : Nat → List Nat) (k : Nat)
     (kvs : List (Nat × Nat)) (hc : initCount kvs ≤ 1) :
-    Released (applySettings o ord k kvs).1 (applySettings o ord k kvs).2 := by
+    Released (applyEach o ord k kvs).1 (applyEach o ord k kvs).2 := by
   induction kvs generalizing o L k with
   | nil => exact Released.nil o
   | cons kv rest ih =>
     obtain ⟨id, v⟩ := kv
     simp only [initCount] at hc
-    simp only [H2.applySettings]
+    simp only [H2.applyEach]
     split
     · rename_i hid
       have hrest : initCount rest = 0 := by simp [hid] at hc; omega
-      have hn := applySettings_noInit (o.setInitWin (ord k) v).1 ord (k + 1) rest hrest
+      have hn := applyEach_noInit (o.setInitWin (ord k) v).1 ord (k + 1) rest hrest
       simp only [hn.1, List.append_nil]
       exact (Released.setInitWin h (ord k) v).mono (Keeps.of_streams_eq hn.2)
     · rename_i hid
@@ -221,10 +224,54 @@ theorem Released.applySettings {o : Dir α} {L : Ledger} (h : Book o L) (ord : N
         · exact ih (h.congr (d' := { o with tableSize := v }) rfl rfl rfl) k hrest
         · exact ih h k hrest
 
-/-- the frame is not a SETTINGS frame repeating SETTINGS_INITIAL_WINDOW_SIZE -/
-def simpleOp : Op α → Prop
-  | .settings kvs => initCount kvs ≤ 1
-  | _ => True
+/-- the entries the relay acts on are a sublist of the frame … -/
+theorem initCount_inForce_le (kvs : List (Nat × Nat)) : initCount (inForce kvs) ≤ initCount kvs := by
+  induction kvs with
+  | nil => exact Nat.le_refl _
+  | cons kv rest ih =>
+    obtain ⟨id, v⟩ := kv
+    simp only [inForce]
+    split
+    · simp only [initCount]; omega
+    · simp only [initCount]; omega
+
+theorem initCount_eq_zero_of_not_any (rest : List (Nat × Nat))
+    (h : ¬ rest.any (fun kv => kv.1 == settingInitialWindowSize) = true) : initCount rest = 0 := by
+  induction rest with
+  | nil => rfl
+  | cons kv t ih =>
+    obtain ⟨i, w⟩ := kv
+    simp only [List.any_cons, Bool.or_eq_true, beq_iff_eq, not_or] at h
+    simp only [initCount, h.1, if_false, Nat.zero_add]
+    exact ih h.2
+
+/-- … that names SETTINGS_INITIAL_WINDOW_SIZE at most once (its last occurrence): `relay.applySettings`
+    calls `updateInitialWindowSize` — and scans the queues — at most once per frame -/
+theorem initCount_inForce (kvs : List (Nat × Nat)) : initCount (inForce kvs) ≤ 1 := by
+  induction kvs with
+  | nil => exact Nat.zero_le _
+  | cons kv rest ih =>
+    obtain ⟨id, v⟩ := kv
+    simp only [inForce]
+    split
+    · exact ih
+    · rename_i hn
+      simp only [initCount]
+      by_cases hid : id = settingInitialWindowSize
+      · have hz : initCount rest = 0 := by
+          apply initCount_eq_zero_of_not_any
+          intro hany
+          exact hn ⟨Or.inl hid, by rw [hid]; exact hany⟩
+        have := initCount_inForce_le rest
+        simp only [hid, if_true]; omega
+      · simp only [hid, if_false]; omega
+
+/-- **`relay.applySettings`, any frame**: whatever identifiers a SETTINGS frame repeats, every frame
+    released while it is applied is within the credit in force afterwards -/
+theorem Released.applySettings {o : Dir α} {L : Ledger} (h : Book o L) (ord : Nat → List Nat)
+    (kvs : List (Nat × Nat)) :
+    Released (applySettings o ord kvs).1 (applySettings o ord kvs).2 :=
+  Released.applyEach h ord 0 (inForce kvs) (initCount_inForce kvs)
 
 theorem Released.header {d : Dir α} {L : Ledger} (h : Book d L) (sid : Nat) (block : List α) (es : Bool) (p : Prio) :
     Released (d.header sid block es p).1 (d.header sid block es p).2 := by
@@ -237,7 +284,7 @@ theorem Released.pushPromise {d : Dir α} {L : Ledger} (h : Book d L) (sid pr : 
   exact (Released.enqEmit (h.congr (d' := { d with encSeq := d.encSeq + 1 }) rfl rfl rfl) _).1
 
 theorem Released.process {d o : Dir α} {Ld Lo : Ledger} (hd : Book d Ld) (ho : Book o Lo)
-    (ord : Nat → List Nat) (op : Op α) (hs : simpleOp op) :
+    (ord : Nat → List Nat) (op : Op α) :
     Released (process d o ord op).1 (process d o ord op).2.2.fwd ∧
     Released (process d o ord op).2.1 (process d o ord op).2.2.back := by
   cases op with
@@ -267,14 +314,14 @@ theorem Released.process {d o : Dir α} {Ld Lo : Ledger} (hd : Book d Ld) (ho : 
   | priority sid prio => exact ⟨(Released.enqEmit hd _).1, Released.nil o⟩
   | rst sid code => exact ⟨(Released.enqEmit hd _).1, Released.nil o⟩
   | windowUpdate sid inc => exact ⟨Released.nil d, Released.windowUpdate ho (ord 0) sid inc⟩
-  | settings kvs => exact ⟨Released.nil d, Released.applySettings ho ord 0 kvs hs⟩
+  | settings kvs => exact ⟨Released.nil d, Released.applySettings ho ord kvs⟩
   | settingsAck => exact ⟨Released.nil d, Released.nil o⟩
   | ping ack data => exact ⟨Released.nil d, Released.nil o⟩
   | goAway last code debug => exact ⟨Released.nil d, Released.nil o⟩
   | unknown typ => exact ⟨Released.nil d, Released.nil o⟩
 
 theorem Released.step {d o : Dir α} {Ld Lo : Ledger} (hd : Book d Ld) (ho : Book o Lo)
-    (ord : Nat → List Nat) (op : Op α) (hs : simpleOp op) :
+    (ord : Nat → List Nat) (op : Op α) :
     Released (step d o ord op).1 (step d o ord op).2.2.fwd ∧
     Released (step d o ord op).2.1 (step d o ord op).2.2.back := by
   unfold H2.step
@@ -284,7 +331,7 @@ theorem Released.step {d o : Dir α} {Ld Lo : Ledger} (hd : Book d Ld) (ho : Boo
   · have hdead' : d.dead = false := by simpa using hdead
     by_cases hok : orderOk d op = true
     · simp only [hdead', hok, if_true, Bool.false_eq_true, if_false]
-      have := Released.process hd ho ord op hs
+      have := Released.process hd ho ord op
       exact ⟨this.1.mono (Keeps.of_streams_eq rfl), this.2⟩
     · have hok' : orderOk d op = false := by simpa using hok
       simp only [hdead', hok', Bool.false_eq_true, if_false]
